@@ -686,6 +686,11 @@ func executeLive(t *testing.T, prop string, seed uint64, p *LivePlan) *core.Resu
 		}
 		res.SimNs = w.Now()
 		lastLive = lw
+		// whatever is still in flight (the end of stream of a node that finished
+		// last) arrives before the links are taken down: the log does not depend
+		// on who runs first in the final instant
+		time.Sleep(10 * time.Second)
+		synctest.Wait()
 		w.Shutdown()
 		synctest.Wait()
 		lib, other := core.Leaked()
